@@ -109,6 +109,8 @@ def _worker(spec):
         d = dg.parse_diag(dumps[gi]['diag']); diags[gi] = d
         dp = dg.parse_dump(dumps[gi]['dump']) if 'dump' in dumps[gi] else None
         m, diffs = model.match_tables(g, tbs[gi], d, dp)
+        if diffs and diffs[0].startswith('ambiguous symbol names'):
+            out['counts']['grammars_with_ambiguous_symbol_names'] += 1; diffs = []      # a term and a nonterminal share a name: the printed table cannot be read back
         maps[gi] = m; tdiffs[gi] = diffs
     # which grammars can be parsed
     jobs = []
@@ -400,8 +402,6 @@ def judge_c11(spec, gs, tbs, inputs, diags, dumps, maps, tdiffs, byk, jobs, info
         for df in tdiffs[gi]:
             if df.startswith('acc-conflict'):
                 viol(out, g, None, None, 'reduce/accept conflict not reported: ' + df, extra_keys=['site:state_analyzer::transitions@success-shadows-reduce'])
-            elif df.startswith('ambiguous symbol names'):
-                C['grammars_skipped_ambiguous_names'] += 1
             else:
                 viol(out, g, None, None, 'diagnostics differ from the reference LR(1) analysis: ' + df, diffs=tdiffs[gi][:10])
                 break
